@@ -248,7 +248,10 @@ fn main() {
                 let mut ra = None;
                 let mut rb = None;
                 // A runs until its consent step suspends, then B completes, then A resumes
-                if let Poll::Ready(r) = fa.as_mut().poll(&mut cx) { ra = Some(r); }
+                // (sequential: A runs to completion first)
+                if sc["sequential"].as_bool().unwrap_or(false) {
+                    for _ in 0..100 { if let Poll::Ready(r) = fa.as_mut().poll(&mut cx) { ra = Some(r); break; } }
+                } else if let Poll::Ready(r) = fa.as_mut().poll(&mut cx) { ra = Some(r); }
                 for _ in 0..100 { if let Poll::Ready(r) = fb.as_mut().poll(&mut cx) { rb = Some(r); break; } }
                 for _ in 0..100 { if ra.is_some() { break; } if let Poll::Ready(r) = fa.as_mut().poll(&mut cx) { ra = Some(r); } }
                 let c: Vec<Option<u32>> = [ra, rb].into_iter().map(|r| r.and_then(|x| x.ok()).and_then(|x| x.auth_data.counter)).collect();
@@ -296,6 +299,12 @@ fn main() {
                 p0b.counter = Some(9);
                 let upd_ok = drive!(w.update_credential(p0b), dead, "update_credential").map(|r| r.is_ok());
                 let updated = $peek(&w, &p0.credential_id).and_then(|p| p.counter) == Some(9);
+                // the same and a lower counter once more: whatever the store then holds, the call has to come back
+                for c in [9u32, 3, 10] {
+                    let mut again = p0.clone();
+                    again.counter = Some(c);
+                    let _ = drive!(w.update_credential(again), dead, "update_credential");
+                }
                 let ids = [descriptor(&p0.credential_id)];
                 let found = drive!(w.find_credentials(Some(&ids), &rp), dead, "find_credentials").map(|r| r.map(|v| v.len()).map_err(|e| format!("{:?}", e)));
                 let info = drive!(w.get_info(), dead, "get_info").map(|i| match i.discoverability {
@@ -314,6 +323,401 @@ fn main() {
             run_ops!(Arc::new(tokio::sync::Mutex::new(inner)), |w: &Arc<tokio::sync::Mutex<MemoryStore>>, id: &passkey_types::Bytes| w.try_lock().ok().and_then(|g| g.get(id.as_slice()).cloned()))
         };
         println!("E2REPLAY {}", json!({"result": res, "log": []}));
+        return;
+    }
+    if sc["op"] == "leak_scan" {
+        // real ceremonies with real keys (authenticator level, U2F, and through the WebAuthn client), then every value
+        // handed back is rendered (Debug, CBOR, JSON) and searched for the private scalar and the PRF secrets in
+        // raw, hex, decimal-list, base64 and base64url form
+        use passkey_authenticator::MemoryStore;
+        let b64 = |data: &[u8], url: bool| -> String {
+            let abc: &[u8] = if url { b"ABCDEFGHIJKLMNOPQRSTUVWXYZabcdefghijklmnopqrstuvwxyz0123456789-_" } else { b"ABCDEFGHIJKLMNOPQRSTUVWXYZabcdefghijklmnopqrstuvwxyz0123456789+/" };
+            let mut out = String::new();
+            let mut acc = 0u32;
+            let mut bits = 0;
+            for &b in data { acc = (acc << 8) | b as u32; bits += 8; while bits >= 6 { bits -= 6; out.push(abc[((acc >> bits) & 63) as usize] as char); } }
+            if bits > 0 { out.push(abc[((acc << (6 - bits)) & 63) as usize] as char); }
+            out
+        };
+        let forms = |secret: &[u8]| -> Vec<(String, Vec<u8>)> {
+            let mut v: Vec<(String, Vec<u8>)> = vec![("raw".into(), secret.to_vec())];
+            v.push(("hex".into(), secret.iter().map(|b| format!("{:02x}", b)).collect::<String>().into_bytes()));
+            v.push(("HEX".into(), secret.iter().map(|b| format!("{:02X}", b)).collect::<String>().into_bytes()));
+            v.push(("decimal-list".into(), secret.iter().map(|b| b.to_string()).collect::<Vec<_>>().join(", ").into_bytes()));
+            v.push(("decimal-list-compact".into(), secret.iter().map(|b| b.to_string()).collect::<Vec<_>>().join(",").into_bytes()));
+            for url in [false, true] {
+                for off in 0..3usize {
+                    // the characters of the encoding that depend on the secret's bits only, for each alignment
+                    let mut padded = vec![0u8; off];
+                    padded.extend_from_slice(secret);
+                    let enc = b64(&padded, url);
+                    let start = (off * 8 + 5) / 6;
+                    let end = ((off + secret.len()) * 8) / 6;
+                    v.push((format!("{}@{}", if url { "base64url" } else { "base64" }, off), enc.as_bytes()[start..end].to_vec()));
+                }
+            }
+            v
+        };
+        let contains = |hay: &[u8], needle: &[u8]| needle.len() <= hay.len() && hay.windows(needle.len()).any(|w| w == needle);
+        fn cbor<T: serde::Serialize>(v: &T) -> Vec<u8> { let mut b = Vec::new(); let _ = ciborium::ser::into_writer(v, &mut b); b }
+        let mut renderings: Vec<(String, Vec<u8>)> = Vec::new();
+        let mut secrets: Vec<(String, Vec<u8>)> = Vec::new();
+        let mut polls = 0u64;
+        let user = || User { script: json!({"verification": true, "outcome": {"ok": [true, true]}}), log: log.clone() };
+        let harvest = |pk: &Passkey, tag: &str, secrets: &mut Vec<(String, Vec<u8>)>| {
+            for (l, v) in &pk.key.params {
+                if *l == coset::Label::Int(-4) { if let Some(d) = v.as_bytes() { secrets.push((format!("{}.private-scalar", tag), d.clone())); } }
+            }
+            if let Some(h) = pk.extensions.hmac_secret.as_ref() {
+                secrets.push((format!("{}.prf-secret-uv", tag), h.cred_with_uv.clone()));
+                if let Some(w) = h.cred_without_uv.as_ref() { secrets.push((format!("{}.prf-secret-no-uv", tag), w.clone())); }
+            }
+        };
+        // --- authenticator level
+        {
+            let mut auth = Authenticator::new(Aaguid::new_empty(), MemoryStore::new(), user())
+                .hmac_secret(HmacSecretConfig::new_without_uv().enable_on_make_credential());
+            auth.set_make_credentials_with_signature_counter(true);
+            let prf = || passkey_types::ctap2::extensions::AuthenticatorPrfInputs {
+                eval: Some(passkey_types::ctap2::extensions::AuthenticatorPrfValues { first: [3u8; 32], second: Some([4u8; 32]) }),
+                eval_by_credential: None,
+            };
+            let mc = make_credential::Request {
+                client_data_hash: vec![7u8; 32].into(),
+                rp: make_credential::PublicKeyCredentialRpEntity { id: rp.clone(), name: None },
+                user: webauthn::PublicKeyCredentialUserEntity { id: vec![9u8; 8].into(), display_name: "d".into(), name: "n".into() },
+                pub_key_cred_params: webauthn::PublicKeyCredentialParameters::default_algorithms(),
+                exclude_list: None,
+                extensions: Some(make_credential::ExtensionInputs { hmac_secret: Some(true), hmac_secret_mc: None, prf: Some(prf()) }),
+                options: make_credential::Options { rk: true, up: true, uv: true },
+                pin_auth: None,
+                pin_protocol: None,
+            };
+            let r = block_on(Authenticator::make_credential(&mut auth, mc), 1000, &mut polls);
+            if let Some(Ok(resp)) = &r {
+                renderings.push(("ctap2.make_credential.debug".into(), format!("{:?}", resp).into_bytes()));
+                renderings.push(("ctap2.make_credential.debug-pretty".into(), format!("{:#?}", resp).into_bytes()));
+                renderings.push(("ctap2.make_credential.cbor".into(), cbor(resp)));
+                renderings.push(("ctap2.make_credential.auth_data".into(), resp.auth_data.to_vec()));
+            } else if let Some(Err(e)) = &r { renderings.push(("ctap2.make_credential.error".into(), format!("{:?}", e).into_bytes())); }
+            let stored: Vec<Passkey> = auth.store().values().cloned().collect();
+            for pk in &stored {
+                harvest(pk, "ctap2", &mut secrets);
+                renderings.push(("passkey.debug".into(), format!("{:?}", pk).into_bytes()));
+                renderings.push(("passkey.debug-pretty".into(), format!("{:#?}", pk).into_bytes()));
+            }
+            for uv in [true, false] {
+                let ga = get_assertion::Request {
+                    rp_id: rp.clone(),
+                    client_data_hash: vec![7u8; 32].into(),
+                    allow_list: None,
+                    extensions: Some(get_assertion::ExtensionInputs { hmac_secret: None, prf: Some(prf()) }),
+                    options: make_credential::Options { rk: false, up: true, uv },
+                    pin_auth: None,
+                    pin_protocol: None,
+                };
+                let r = block_on(Authenticator::get_assertion(&mut auth, ga), 1000, &mut polls);
+                if let Some(Ok(resp)) = &r {
+                    renderings.push((format!("ctap2.get_assertion.uv={}.debug", uv), format!("{:?}", resp).into_bytes()));
+                    renderings.push((format!("ctap2.get_assertion.uv={}.debug-pretty", uv), format!("{:#?}", resp).into_bytes()));
+                    renderings.push((format!("ctap2.get_assertion.uv={}.cbor", uv), cbor(resp)));
+                } else if let Some(Err(e)) = &r { renderings.push(("ctap2.get_assertion.error".into(), format!("{:?}", e).into_bytes())); }
+            }
+            // a failing request, for the error value
+            let ga = get_assertion::Request {
+                rp_id: rp.clone(), client_data_hash: vec![7u8; 32].into(), allow_list: None, extensions: None,
+                options: make_credential::Options { rk: true, up: true, uv: true }, pin_auth: None, pin_protocol: None,
+            };
+            if let Some(Err(e)) = block_on(Authenticator::get_assertion(&mut auth, ga), 1000, &mut polls) {
+                renderings.push(("ctap2.get_assertion.error".into(), format!("{:?}", e).into_bytes()));
+            }
+            let info = block_on(Authenticator::get_info(&auth), 1000, &mut polls);
+            if let Some(i) = &info {
+                renderings.push(("ctap2.get_info.debug".into(), format!("{:?}", i).into_bytes()));
+                renderings.push(("ctap2.get_info.cbor".into(), cbor(i)));
+            }
+        }
+        // --- U2F
+        {
+            let mut auth = Authenticator::new(Aaguid::new_empty(), MemoryStore::new(), user());
+            let req = passkey_types::u2f::RegisterRequest { challenge: [5u8; 32], application: [6u8; 32] };
+            if let Some(Ok(resp)) = block_on(U2fApi::register(&mut auth, req, &[1u8; 16]), 1000, &mut polls) {
+                renderings.push(("u2f.register.encoded".into(), resp.encode()));
+            }
+            let stored: Vec<Passkey> = auth.store().values().cloned().collect();
+            for pk in &stored { harvest(pk, "u2f", &mut secrets); }
+            let req = passkey_types::u2f::AuthenticationRequest {
+                parameter: passkey_types::u2f::AuthenticationParameter::EnforceUserPresence,
+                challenge: [5u8; 32], application: [6u8; 32], key_handle: vec![1u8; 16],
+            };
+            if let Some(Ok(resp)) = block_on(U2fApi::authenticate(&auth, req, 1, Flags::UP), 1000, &mut polls) {
+                renderings.push(("u2f.authenticate.encoded".into(), resp.encode()));
+            }
+        }
+        // --- WebAuthn client
+        {
+            let auth = Authenticator::new(Aaguid::new_empty(), MemoryStore::new(), user())
+                .hmac_secret(HmacSecretConfig::new_without_uv().enable_on_make_credential());
+            let mut client = passkey_client::Client::new(auth);
+            let origin = url::Url::parse(&format!("https://{}", rp)).unwrap();
+            let prf = || webauthn::AuthenticationExtensionsPrfInputs {
+                eval: Some(webauthn::AuthenticationExtensionsPrfValues { first: vec![3u8; 8].into(), second: Some(vec![4u8; 8].into()) }),
+                eval_by_credential: None,
+            };
+            let options = webauthn::CredentialCreationOptions { public_key: webauthn::PublicKeyCredentialCreationOptions {
+                rp: webauthn::PublicKeyCredentialRpEntity { id: Some(rp.clone()), name: rp.clone() },
+                user: webauthn::PublicKeyCredentialUserEntity { id: vec![9u8; 8].into(), display_name: "d".into(), name: "n".into() },
+                challenge: vec![8u8; 32].into(),
+                pub_key_cred_params: webauthn::PublicKeyCredentialParameters::default_algorithms(),
+                timeout: None,
+                exclude_credentials: Default::default(),
+                authenticator_selection: Default::default(),
+                hints: None,
+                attestation: Default::default(),
+                attestation_formats: Default::default(),
+                extensions: Some(webauthn::AuthenticationExtensionsClientInputs { prf: Some(prf()), ..Default::default() }),
+            }};
+            let r = block_on(client.register(&origin, options, passkey_client::DefaultClientData), 1000, &mut polls);
+            let mut cred_id = None;
+            match &r {
+                Some(Ok(cred)) => {
+                    cred_id = Some(cred.raw_id.clone());
+                    renderings.push(("webauthn.register.debug".into(), format!("{:?}", cred).into_bytes()));
+                    renderings.push(("webauthn.register.json".into(), serde_json::to_vec(cred).unwrap_or_default()));
+                }
+                Some(Err(e)) => renderings.push(("webauthn.register.error".into(), format!("{:?}", e).into_bytes())),
+                None => {}
+            }
+            let stored: Vec<Passkey> = client.authenticator().store().values().cloned().collect();
+            for pk in &stored { harvest(pk, "webauthn", &mut secrets); }
+            if let Some(id) = cred_id {
+                let options = webauthn::CredentialRequestOptions { public_key: webauthn::PublicKeyCredentialRequestOptions {
+                    challenge: vec![8u8; 32].into(),
+                    timeout: None,
+                    rp_id: Some(rp.clone()),
+                    allow_credentials: Some(vec![webauthn::PublicKeyCredentialDescriptor { ty: webauthn::PublicKeyCredentialType::PublicKey, id, transports: None }]),
+                    user_verification: Default::default(),
+                    hints: None,
+                    attestation: Default::default(),
+                    attestation_formats: Default::default(),
+                    extensions: Some(webauthn::AuthenticationExtensionsClientInputs { prf: Some(prf()), ..Default::default() }),
+                }};
+                match block_on(client.authenticate(&origin, options, passkey_client::DefaultClientData), 1000, &mut polls) {
+                    Some(Ok(cred)) => {
+                        renderings.push(("webauthn.authenticate.debug".into(), format!("{:?}", cred).into_bytes()));
+                        renderings.push(("webauthn.authenticate.json".into(), serde_json::to_vec(&cred).unwrap_or_default()));
+                    }
+                    Some(Err(e)) => renderings.push(("webauthn.authenticate.error".into(), format!("{:?}", e).into_bytes())),
+                    None => {}
+                }
+            }
+        }
+        let mut leaks: Vec<String> = Vec::new();
+        for (sname, secret) in &secrets {
+            if secret.len() < 16 { continue; }
+            for (fname, pat) in forms(secret) {
+                for (rname, r) in &renderings {
+                    if contains(r, &pat) { leaks.push(format!("{} as {} in {}", sname, fname, rname)); }
+                }
+            }
+        }
+        // the scanner itself: a known secret embedded at every alignment inside larger encoded blobs must be found
+        let probe: Vec<u8> = (0u8..32).map(|i| i.wrapping_mul(37).wrapping_add(11)).collect();
+        let mut selftest = true;
+        for off in 0..3usize {
+            let mut blob = vec![0xAAu8; off + 3];
+            blob.extend_from_slice(&probe);
+            blob.extend_from_slice(&[0x55u8; 5]);
+            for url in [false, true] {
+                let hay = b64(&blob, url).into_bytes();
+                selftest &= forms(&probe).iter().any(|(n, pat)| n.starts_with(if url { "base64url" } else { "base64@" }) && contains(&hay, pat));
+            }
+            let hay = format!("{:?}", blob).into_bytes();
+            selftest &= forms(&probe).iter().any(|(n, pat)| n == "decimal-list" && contains(&hay, pat));
+        }
+        let names: Vec<&String> = renderings.iter().map(|(n, _)| n).collect();
+        println!("E2REPLAY {}", json!({"result": {"leaks": leaks, "scanner_selftest": selftest, "renderings": names, "secrets": secrets.iter().map(|(n, s)| json!([n, s.len()])).collect::<Vec<_>>()}, "log": []}));
+        return;
+    }
+    if sc["op"] == "client_ceremony" {
+        // registration then authentication through the real WebAuthn client and authenticator; every returned value is
+        // checked the way a relying party would (client data JSON, rpIdHash, attestation object, key forms, signature)
+        use p256::ecdsa::signature::Verifier;
+        use passkey_authenticator::MemoryStore;
+        use sha2::{Digest, Sha256};
+        let origin_s = sc["origin"].as_str().unwrap_or("https://future.1password.com").to_string();
+        let rp_opt: Option<String> = sc["rp_id"].as_str().map(String::from);
+        let effective_rp = rp_opt.clone().unwrap_or_else(|| url::Url::parse(&origin_s).ok().and_then(|u| u.domain().map(String::from)).unwrap_or_default());
+        let custom_hash: Option<Vec<u8>> = sc["custom_hash"].as_bool().unwrap_or(false).then(|| vec![0x5au8; 32]);
+        let uv_req = match sc["user_verification"].as_str() {
+            Some("discouraged") => webauthn::UserVerificationRequirement::Discouraged,
+            Some("required") => webauthn::UserVerificationRequirement::Required,
+            _ => webauthn::UserVerificationRequirement::Preferred,
+        };
+        let mut polls = 0u64;
+        let user = User { script: json!({"verification": true, "outcome": {"ok": [true, sc["uv_outcome"].as_bool().unwrap_or(true)]}}), log: log.clone() };
+        let mut auth = Authenticator::new(Aaguid::new_empty(), MemoryStore::new(), user);
+        if sc["counter"].as_bool().unwrap_or(true) { auth.set_make_credentials_with_signature_counter(true); }
+        let mut client = passkey_client::Client::new(auth);
+        let origin = match url::Url::parse(&origin_s) { Ok(u) => u, Err(_) => { println!("E2REPLAY {}", json!({"result": "bad origin", "log": []})); return; } };
+        let challenge: Vec<u8> = (0u8..32).map(|i| i.wrapping_mul(7).wrapping_add(0xF0)).collect();   // contains bytes that differ between base64 and base64url
+        let b64url = |d: &[u8]| passkey_types::encoding::base64url(d);
+        let params = match sc["params"].as_str() {
+            Some("empty") => vec![],
+            Some("rs256_first") => vec![
+                webauthn::PublicKeyCredentialParameters { ty: webauthn::PublicKeyCredentialType::PublicKey, alg: coset::iana::Algorithm::RS256 },
+                webauthn::PublicKeyCredentialParameters { ty: webauthn::PublicKeyCredentialType::PublicKey, alg: coset::iana::Algorithm::ES256 },
+            ],
+            Some("unknown_type_only") => vec![
+                webauthn::PublicKeyCredentialParameters { ty: webauthn::PublicKeyCredentialType::Unknown, alg: coset::iana::Algorithm::RS256 },
+            ],
+            Some("unknown_type_es256") => vec![
+                webauthn::PublicKeyCredentialParameters { ty: webauthn::PublicKeyCredentialType::Unknown, alg: coset::iana::Algorithm::ES256 },
+                webauthn::PublicKeyCredentialParameters { ty: webauthn::PublicKeyCredentialType::PublicKey, alg: coset::iana::Algorithm::RS256 },
+            ],
+            Some("rs256_only") => vec![
+                webauthn::PublicKeyCredentialParameters { ty: webauthn::PublicKeyCredentialType::PublicKey, alg: coset::iana::Algorithm::RS256 },
+            ],
+            _ => webauthn::PublicKeyCredentialParameters::default_algorithms(),
+        };
+        let listed_algs: Vec<i64> = params.iter().map(|p| p.alg as i64).collect();
+        let user_id: Vec<u8> = vec![9u8; 8];
+        let options = webauthn::CredentialCreationOptions { public_key: webauthn::PublicKeyCredentialCreationOptions {
+            rp: webauthn::PublicKeyCredentialRpEntity { id: rp_opt.clone(), name: "rp".into() },
+            user: webauthn::PublicKeyCredentialUserEntity { id: user_id.clone().into(), display_name: "d".into(), name: "n".into() },
+            challenge: challenge.clone().into(),
+            pub_key_cred_params: params,
+            timeout: None,
+            exclude_credentials: Default::default(),
+            authenticator_selection: Some(webauthn::AuthenticatorSelectionCriteria {
+                authenticator_attachment: None,
+                resident_key: Some(webauthn::ResidentKeyRequirement::Required),
+                require_resident_key: true,
+                user_verification: uv_req,
+            }),
+            hints: None,
+            attestation: Default::default(),
+            attestation_formats: Default::default(),
+            extensions: None,
+        }};
+        let check_client_data = |json_bytes: &[u8], want_ty: &str, hash_used: &Option<Vec<u8>>| -> Value {
+            let v: Value = serde_json::from_slice(json_bytes).unwrap_or(Value::Null);
+            let keys: Vec<String> = v.as_object().map(|o| o.keys().cloned().collect()).unwrap_or_default();
+            let text = String::from_utf8_lossy(json_bytes).to_string();
+            let pos = |k: &str| text.find(&format!("\"{}\"", k));
+            json!({
+                "type_ok": v["type"] == want_ty,
+                "challenge_ok": v["challenge"] == b64url(&challenge),
+                "origin_ok": v["origin"] == origin_s.trim_end_matches('/'),
+                "order_ok": matches!((pos("type"), pos("challenge"), pos("origin")), (Some(a), Some(b), Some(c)) if a < b && b < c),
+                "keys": keys,
+                "custom_hash": hash_used.is_some(),
+            })
+        };
+        let reg = match custom_hash.clone() {
+            Some(h) => block_on(client.register(&origin, options, passkey_client::DefaultClientDataWithCustomHash(h)), 1000, &mut polls),
+            None => block_on(client.register(&origin, options, passkey_client::DefaultClientData), 1000, &mut polls),
+        };
+        let cred = match reg {
+            Some(Ok(c)) => c,
+            Some(Err(e)) => { println!("E2REPLAY {}", json!({"result": {"register_err": format!("{:?}", e)}, "log": *log.lock().unwrap()})); return; }
+            None => { println!("E2REPLAY {}", json!({"result": "cancelled", "log": []})); return; }
+        };
+        let stored: Vec<Passkey> = client.authenticator().store().values().cloned().collect();
+        let rp_hash: [u8; 32] = Sha256::digest(effective_rp.as_bytes()).into();
+        let ad_bytes: Vec<u8> = cred.response.authenticator_data.to_vec();
+        let ad = passkey_types::ctap2::AuthenticatorData::from_slice(&ad_bytes).ok();
+        let att: Option<ciborium::value::Value> = ciborium::de::from_reader(cred.response.attestation_object.as_slice()).ok();
+        let mut att_auth_data: Option<Vec<u8>> = None;
+        let mut att_fmt: Option<String> = None;
+        let mut att_keys = 0usize;
+        if let Some(ciborium::value::Value::Map(m)) = &att {
+            att_keys = m.len();
+            for (k, v) in m {
+                if k.as_text() == Some("authData") { att_auth_data = v.as_bytes().cloned(); }
+                if k.as_text() == Some("fmt") { att_fmt = v.as_text().map(String::from); }
+            }
+        }
+        let acd = ad.as_ref().and_then(|a| a.attested_credential_data.as_ref());
+        let (mut x, mut y) = (None, None);
+        if let Some(acd) = acd {
+            for (l, v) in &acd.key.params {
+                if *l == coset::Label::Int(-2) { x = v.as_bytes().cloned(); }
+                if *l == coset::Label::Int(-3) { y = v.as_bytes().cloned(); }
+            }
+        }
+        let vk = match (&x, &y) {
+            (Some(x), Some(y)) if x.len() == 32 && y.len() == 32 =>
+                p256::ecdsa::VerifyingKey::from_encoded_point(&p256::EncodedPoint::from_affine_coordinates(x.as_slice().into(), y.as_slice().into(), false)).ok(),
+            _ => None,
+        };
+        let der_vk = cred.response.public_key.as_ref().and_then(|d| {
+            use p256::pkcs8::DecodePublicKey;
+            p256::PublicKey::from_public_key_der(d.as_slice()).ok().map(p256::ecdsa::VerifyingKey::from)
+        });
+        let cose_alg = acd.and_then(|a| a.key.alg.clone());
+        let reg_out = json!({
+            "client_data": check_client_data(cred.response.client_data_json.as_slice(), "webauthn.create", &custom_hash),
+            "id_is_b64url_of_raw_id": cred.id == b64url(cred.raw_id.as_slice()),
+            "rp_hash_ok": ad.as_ref().map(|a| a.rp_id_hash() == &rp_hash[..]),
+            "att_obj_auth_data_identical": att_auth_data.as_deref() == Some(&ad_bytes[..]),
+            "att_obj_fmt_none": att_fmt.as_deref() == Some("none"),
+            "att_obj_members": att_keys,
+            "attested_id_is_raw_id": acd.map(|a| a.credential_id() == cred.raw_id.as_slice()),
+            "stored_id_is_raw_id": stored.first().map(|p| p.credential_id.as_slice() == cred.raw_id.as_slice()),
+            "stored_rp_is_effective_rp": stored.first().map(|p| p.rp_id == effective_rp),
+            "cose_point_valid": vk.is_some(),
+            "der_equals_cose": match (&vk, &der_vk) { (Some(a), Some(b)) => Some(a == b), _ => None },
+            "alg_reported": cred.response.public_key_algorithm,
+            "alg_consistent": cose_alg.as_ref().map(|a| matches!(a, coset::RegisteredLabelWithPrivate::Assigned(x) if (*x as i64) == cred.response.public_key_algorithm)),
+            "alg_is_es256": cred.response.public_key_algorithm == -7,
+            "alg_was_listed": listed_algs.is_empty() || listed_algs.contains(&cred.response.public_key_algorithm),
+            "flags": ad.as_ref().map(|a| u8::from(a.flags)),
+            "counter_zero": ad.as_ref().map(|a| a.counter == Some(0)),
+        });
+        // --- authentication with that credential
+        let options = webauthn::CredentialRequestOptions { public_key: webauthn::PublicKeyCredentialRequestOptions {
+            challenge: challenge.clone().into(),
+            timeout: None,
+            rp_id: rp_opt.clone(),
+            allow_credentials: sc["allow_list"].as_bool().unwrap_or(true).then(|| vec![webauthn::PublicKeyCredentialDescriptor {
+                ty: webauthn::PublicKeyCredentialType::PublicKey, id: cred.raw_id.clone(), transports: None }]),
+            user_verification: uv_req,
+            hints: None,
+            attestation: Default::default(),
+            attestation_formats: Default::default(),
+            extensions: None,
+        }};
+        let res = match custom_hash.clone() {
+            Some(h) => block_on(client.authenticate(&origin, options, passkey_client::DefaultClientDataWithCustomHash(h)), 1000, &mut polls),
+            None => block_on(client.authenticate(&origin, options, passkey_client::DefaultClientData), 1000, &mut polls),
+        };
+        let auth_out = match res {
+            Some(Ok(a)) => {
+                let adb: Vec<u8> = a.response.authenticator_data.to_vec();
+                let ad2 = passkey_types::ctap2::AuthenticatorData::from_slice(&adb).ok();
+                let mut msg = adb.clone();
+                match &custom_hash {
+                    Some(h) => msg.extend_from_slice(h),
+                    None => msg.extend_from_slice(&Sha256::digest(a.response.client_data_json.as_slice())),
+                }
+                let sig = p256::ecdsa::Signature::from_der(a.response.signature.as_slice()).ok();
+                json!({
+                    "client_data": check_client_data(a.response.client_data_json.as_slice(), "webauthn.get", &custom_hash),
+                    "id_is_b64url_of_raw_id": a.id == b64url(a.raw_id.as_slice()),
+                    "raw_id_is_registered_id": a.raw_id.as_slice() == cred.raw_id.as_slice(),
+                    "rp_hash_ok": ad2.as_ref().map(|x| x.rp_id_hash() == &rp_hash[..]),
+                    "no_attested_data": ad2.as_ref().map(|x| x.attested_credential_data.is_none()),
+                    "signature_verifies": match (&vk, &sig) { (Some(k), Some(s)) => Some(k.verify(&msg, s).is_ok()), _ => None },
+                    "user_handle_is_user_id": a.response.user_handle.as_ref().map(|h| h.as_slice() == &user_id[..]),
+                    "counter": ad2.as_ref().map(|x| x.counter),
+                    "flags": ad2.as_ref().map(|x| u8::from(x.flags)),
+                })
+            }
+            Some(Err(e)) => json!({"authenticate_err": format!("{:?}", e)}),
+            None => json!("cancelled"),
+        };
+        println!("E2REPLAY {}", json!({"result": {"register": reg_out, "authenticate": auth_out, "effective_rp": effective_rp}, "log": *log.lock().unwrap()}));
         return;
     }
     if sc["op"] == "cbor_duplicates" {
